@@ -358,6 +358,24 @@ func runC09() {
 	rep := newReport("C09")
 	rng := rand.New(rand.NewSource(*seed))
 	cases := c09Cases(rng)
+	if *replay != "" {
+		// one (source, option set) through the in-process part of the check
+		var in struct{ Src, Opt, What string }
+		if err := json.Unmarshal([]byte(*replay), &in); err != nil {
+			fmt.Println("bad replay argument:", err)
+			return
+		}
+		cases = nil
+		if in.Src != "" {
+			cases = []c09Case{{in.Src, in.Opt}}
+		}
+		defer func() {
+			for _, f := range rep.Failures {
+				fmt.Printf("%s: %s\n  input: %v\n  want: %s\n  got: %s\n", f.Key, f.What, f.Input, f.Want, f.Got)
+			}
+			fmt.Printf("replay: %d failure(s)\n", len(rep.Failures))
+		}()
+	}
 	sample := baseEnv()
 	menv := c09MapEnv(baseEnv())
 	sampleSnap, menvSnap := deepSnapshot(sample), deepSnapshot(menv)
@@ -373,7 +391,7 @@ func runC09() {
 		dir string
 	}
 	var children []childRun
-	for k := 0; k < 2; k++ {
+	for k := 0; k < 2 && *replay == ""; k++ {
 		dir := filepath.Join(*outDir, fmt.Sprintf("child%d", k))
 		os.MkdirAll(dir, 0755)
 		os.Remove(filepath.Join(dir, "digests.json"))
@@ -590,7 +608,7 @@ func runC09() {
 		cenvs := standardEnvs(rand.New(rand.NewSource(*seed+3)), 4)
 		var coq []string
 		modes := []coreMode{modeUntyped, modeTyped, modeTypedOpt}
-		for tries := 0; len(coq) < nCoq && tries < nCoq*6; tries++ {
+		for tries := 0; len(coq) < nCoq && tries < nCoq*6 && len(cases) > 0; tries++ {
 			c := cases[crng.Intn(len(cases))]
 			m := modes[crng.Intn(3)]
 			tree, prog, _, err := pipeline(c.Src, m.options(cenvs[0]))
